@@ -89,6 +89,7 @@ class HarnessError(Exception):
 # parallel map (fork AFTER the heavy import; never fork per execution)
 # ----------------------------------------------------------------------------------------------
 _WORK = {}
+FAILFAST = int(os.environ.get("VERIF_FAILFAST", "150") or 150)
 
 
 def _worker(args):
@@ -121,12 +122,26 @@ def pmap(key, fn, items, nproc=None, chunks=1):
     # not leave the parent waiting for a result that will never come
     from concurrent.futures import ProcessPoolExecutor
     from concurrent.futures.process import BrokenProcessPool
+    pool = ProcessPoolExecutor(max_workers=min(nproc, len(items)), mp_context=ctx)
     try:
-        with ProcessPoolExecutor(max_workers=min(nproc, len(items)), mp_context=ctx) as pool:
-            for r in pool.map(_worker, [(key, i) for i in range(len(items))], chunksize=chunks):
-                total.merge(r)
+        for r in pool.map(_worker, [(key, i) for i in range(len(items))], chunksize=chunks):
+            total.merge(r)
+            if len(total.fails) >= FAILFAST:
+                # plenty of counterexamples: the verdict is decided; the remaining units are not explored (evidence says so)
+                total.count("units_skipped_after_%d_failures" % FAILFAST)
+                total.counters["capped"] = 1
+                break
     except BrokenProcessPool as ex:
         raise HarnessError("a worker process of %s died (%s)" % (key, ex))
+    finally:
+        # all results are in (or the run is being abandoned): do not wait for the interpreter finalisation of the workers - objects of the
+        # code under check (simulation cores, generators) can make a worker hang while it exits, and the verdict does not depend on that
+        procs = list(getattr(pool, "_processes", {}).values())
+        pool.shutdown(wait=False, cancel_futures=True)
+        for pr in procs:
+            pr.join(timeout=3)
+            if pr.is_alive():
+                pr.kill()
     return total
 
 
